@@ -371,9 +371,13 @@ func (r *Report) Finish() {
 	}
 	r.mu.Unlock()
 	if r.ReplayPath == "" {
-		os.MkdirAll(filepath.Join(root, "evidence"), 0o755)
+		evDir := filepath.Join(root, "evidence")
+		if d := os.Getenv("VERIF_EVIDENCE_DIR"); d != "" {
+			evDir = d // detection demos against a scratch tree must not overwrite real evidence
+		}
+		os.MkdirAll(evDir, 0o755)
 		b, _ := json.MarshalIndent(ev, "", " ")
-		if err := os.WriteFile(filepath.Join(root, "evidence", r.Property+".json"), b, 0o644); err != nil {
+		if err := os.WriteFile(filepath.Join(evDir, r.Property+".json"), b, 0o644); err != nil {
 			fmt.Fprintln(os.Stderr, "cannot write evidence:", err)
 			os.Exit(2)
 		}
